@@ -118,6 +118,11 @@ COMPILE_FAIL = [
     ('compile-bad-unicode-escape', "x = '\\N{NOPE}'"), ('compile-fstring', "x = f'{1 +}'"), ('compile-assign-literal', "1 = x"),
     ('compile-nonlocal', "nonlocal q"), ('compile-dup-arg', "def g(a, a):\n    pass"),
 ]
+TIMEOUTS = [
+    ('timeout-busy-loop', "while True:\n    pass"), ('timeout-print-loop', "n = 0\nwhile True:\n    n += 1\n    if n % 5000 == 0:\n        print(n)"),
+    ('timeout-swallows-the-interrupt', "try:\n    while True:\n        pass\nexcept BaseException:\n    swallowed = True"),
+    ('timeout-in-function', "def spin():\n    while True:\n        pass\nspin()"),
+]
 PRELUDE = "total = 0\nwords = ['a', 'b']\n\n"   # two student lines + blank before the failing body (line 4 on)
 
 
@@ -133,6 +138,8 @@ def all_modes():
         out.append({'mode': n, 'body': b, 'kind': 'ok'})
     for n, b in COMPILE_FAIL:
         out.append({'mode': n, 'body': b, 'kind': 'compile'})
+    for n, b in TIMEOUTS:
+        out.append({'mode': n, 'body': b, 'kind': 'timeout'})
     return out
 
 
@@ -398,7 +405,7 @@ def runtime_feedbacks(report):
 # one execution under both monitors
 # ----------------------------------------------------------------------------------------------------------
 
-def new_sandbox(files, tracer='none', threaded=False):
+def new_sandbox(files, tracer='none', threaded=False, allowed_time=20):
     from pedal.core.commands import clear_report, contextualize_report
     from pedal.core.report import MAIN_REPORT
     from pedal.core.submission import Submission
@@ -410,7 +417,7 @@ def new_sandbox(files, tracer='none', threaded=False):
         sandbox.tracer_style = tracer
     if threaded:
         sandbox.threaded = True
-        sandbox.allowed_time = 20
+        sandbox.allowed_time = allowed_time
     return sandbox, MAIN_REPORT
 
 
@@ -441,7 +448,7 @@ def execute_case(ctx, which, case, state=None):
     case['inputs'] = inputs
     case['mode_body'] = case['body']
     try:
-        sandbox, report = new_sandbox(files, tracer, threaded)
+        sandbox, report = new_sandbox(files, tracer, threaded, allowed_time=0.15 if kind == 'timeout' else 20)
     except ImportError:
         ctx.count('tracer_unavailable')
         return
@@ -458,6 +465,10 @@ def execute_case(ctx, which, case, state=None):
         sbx.run(code='zz = 1 / 0')
     elif pos == 'after-ok':
         sbx.run(code='print("warm")')
+    elif pos == 'after-clear_context':
+        sbx.run(code='print("warm")')
+        sbx.run(code='zz = 2')
+        sandbox.clear_context()
     n_rt_before = len(runtime_feedbacks(report))
     envname = case.get('env', 'plain')
     with Env(envname):
@@ -472,8 +483,11 @@ def _measured(ctx, which, case, sandbox, report, files, inputs, n_rt_before):
     pos = case.get('position', 'first')
     envname = case.get('env', 'plain')
     snap = Snapshot(sandbox)
-    ref = reference(files, 'run' if kind == 'compile' and entry != 'import' else entry, inputs) if entry != 'run-code' else \
-        reference({'answer.py': case['body'] + '\n'}, 'run', inputs)
+    if kind == 'timeout':
+        ref = RefResult()       # never ends: there is no plain-CPython reference, and C05 needs none
+    else:
+        ref = reference(files, 'run' if kind == 'compile' and entry != 'import' else entry, inputs) if entry != 'run-code' else \
+            reference({'answer.py': case['body'] + '\n'}, 'run', inputs)
     if entry == 'run-code' and ref.line is not None:
         ref.line = None         # instructor-supplied code: no student line
     # ---- the measured call ---------------------------------------------------------------------------
@@ -532,6 +546,9 @@ def _measured(ctx, which, case, sandbox, report, files, inputs, n_rt_before):
         return
     # ---------------------------------------------------------------- C04 projection -------------------
     if envname.startswith('failpoint'):
+        return
+    if kind == 'timeout':
+        ctx.count('outside_this_property_time_limit_(C14)')
         return
     if kind in ('base',):
         ctx.count('outside_quantifier_base_exception')
@@ -623,7 +640,7 @@ def _measured(ctx, which, case, sandbox, report, files, inputs, n_rt_before):
 
 
 def strip(case):
-    return {k: v for k, v in case.items() if k in ('mode', 'body', 'kind', 'cls', 'entry', 'tracer', 'threaded', 'position')}
+    return {k: v for k, v in case.items() if k in ('mode', 'body', 'kind', 'cls', 'entry', 'tracer', 'threaded', 'position', 'env')}
 
 
 def mode_family(mode):
@@ -654,6 +671,8 @@ def termination_class(kind, mode, raised):
         return 'normal-end'
     if kind == 'compile':
         return 'compile-failure'
+    if kind == 'timeout':
+        return 'time-limit'
     if kind == 'blocked':
         return 'blocked-feature'
     if mode.startswith('exit-'):
@@ -673,7 +692,9 @@ def case_matrix(ctx, which):
                 continue
             for tracer in TRACERS:
                 for threaded in (False, True):
-                    for pos in ('first', 'after-failure', 'after-ok'):
+                    if m['kind'] == 'timeout' and (not threaded or which != 'C05'):
+                        continue        # only a threaded execution has a time limit (and only C05 looks at what is left behind)
+                    for pos in ('first', 'after-failure', 'after-ok', 'after-clear_context'):
                         for env in (ENVS if which == 'C05' else ENVS[:3]):
                             if env.startswith('failpoint') and m['kind'] in ('ok',):
                                 continue
@@ -707,6 +728,8 @@ def _run(ctx, which):
     rng = ctx.rng
 
     def plain(c):
+        if c['kind'] == 'timeout':      # time limits exist only in threaded executions: every history position, plain configuration
+            return c['tracer'] == 'none' and c['env'] == 'plain'
         return c['tracer'] == 'none' and not c['threaded'] and c['position'] == 'first' and c['env'] == 'plain'
     base = [c for c in cells if plain(c)][ctx.shard::ctx.nshards]
     rest = [c for c in cells if not plain(c)][ctx.shard::ctx.nshards]
@@ -729,7 +752,7 @@ def sequences(ctx, which, n=None):
     """C05: histories of 2-6 executions in ONE sandbox, state compared around each."""
     from pedal.sandbox import commands as sbx
     rng = ctx.rng
-    modes = all_modes()
+    modes = [m for m in all_modes() if m['kind'] != 'timeout']      # these steps run unthreaded: no time limit
     n = n or ctx.pick(40, 400)
     for i in range(n):
         if ctx.time_left() < 3:
